@@ -253,6 +253,40 @@ def main():
                        "via": "estimate"})
     except Exception as e:
       errors.append({"k": "exc", "g": g, "exc": repr(e)[:300]})
+  # quantizer choices: the count of a layer does not depend on what quantizes its input and its kernel, and both
+  # counters have to report it for every quantizer they support (an explicit refusal of an unsupported quantizer is the
+  # documented contract; any other exception is the library failing to report)
+  AQS = ["quantized_bits(4,1,1)", "quantized_bits(2,1,1)", "quantized_relu(4,1)", "quantized_relu(1,1)", "quantized_tanh(4)",
+         "quantized_tanh(2)", "quantized_ulaw(4,1)", "quantized_ulaw(2,1)", "binary()", "binary(use_01=True)", "ternary()",
+         "stochastic_binary()", "stochastic_ternary()", "bernoulli()", "quantized_po2(4)", "quantized_relu_po2(4)",
+         "quantized_sigmoid(4)", "quantized_hswish(4,1)", "quantized_linear(4,1)"]
+  KQS = [QB, "binary()", "ternary()", "quantized_po2(4)", "quantized_bits(2,1,1)", "stochastic_ternary()",
+         "stochastic_binary()", "quantized_relu(1,1)", "quantized_bits(8,2,1,alpha=1.0)"]
+  pairs = [(a, QB) for a in AQS] + [("quantized_bits(4,1,1)", k) for k in KQS] + \
+          [(rnd.choice(AQS[:16]), rnd.choice(KQS)) for _ in range(16 if tier == "quick" else 80)]
+  for j, (aq, kq) in enumerate(pairs):
+    if j % nshards != shard:
+      continue
+    for cls in ("QDense", "QConv2D"):
+      g = geom(cls, cin=rnd.choice([3, 5]), units=rnd.choice([2, 3])) if cls == "QDense" else \
+          geom(cls, h=5, w=4, cin=2, cout=3, kh=2, kw=rnd.choice([1, 3]), sh=1, sw=1, pad=rnd.choice(["valid", "same"]))
+      for via in ("estimate", "qtools"):
+        try:
+          i = L.Input((g["cin"],)) if cls == "QDense" else L.Input((g["h"], g["w"], g["cin"]))
+          x = QActivation(aq, name="act")(i)
+          lay = QDense(g["units"], kernel_quantizer=kq, bias_quantizer=QB, name="lut") if cls == "QDense" else \
+              QConv2D(g["cout"], (g["kh"], g["kw"]), padding=g["pad"], kernel_quantizer=kq, bias_quantizer=QB, name="lut")
+          model = tf.keras.Model(i, lay(x))
+          if via == "estimate":
+            rep = estimate.extract_model_operations(model)["lut"]["number_of_operations"]
+          else:
+            rep = qtools_of(model)._output_dict["lut"]["operation_count"]
+          events.append({"k": "count", "g": g, "reported": int(rep), "layer": "lut", "via": via, "aq": aq, "kq": kq})
+        except Exception as e:
+          refused = (isinstance(e, ValueError) and "Not Found" in str(e)) or e.__class__.__name__ == "TagMissingError" \
+              or (isinstance(e, KeyError) and "quantizers." in str(e))
+          if not refused:
+            errors.append({"k": "exc", "g": dict(g, aq=aq, kq=kq, via=via), "exc": repr(e)[:300]})
   # energy reports
   combos = list(itertools.product(("dram", "sram", "fixed"), ("dram", "sram"), (0, 4096), (True, False)))
   sels = [dict(cfg.include_energy), {"default": ["inputs", "outputs", "parameters", "op_cost"]},
